@@ -315,13 +315,36 @@ def decide(prop, tier, repo, seed, only_units=None, quiet=False):
             except Exception as e:
                 rc, out = None, str(e)
             for (u, bd) in bjobs:
-                ok = rc == 0 and re.search(r"test \S*%s \.\.\. ok" % re.escape(bd["filter"]), out) is not None
-                failed = rc not in (0, None) and re.search(r"test \S*%s \.\.\. FAILED" % re.escape(bd["filter"]), out) is not None
+                # (with --nocapture a test's own output can follow `test name ... ` on the same line: use the summary blocks)
+                failed = rc not in (0, None) and re.search(r"^\s+\S*%s\s*$" % re.escape(bd["filter"]), out, re.M) is not None
+                ok = rc is not None and not failed and re.search(r"test \S*%s \.\.\. " % re.escape(bd["filter"]), out) is not None \
+                    and re.search(r"test result: (ok|FAILED)\. [1-9]", out) is not None
                 bounded_runs.append({"unit": u["name"], "stands_for": bd.get("stands_for", ""), "bound": bd["bound"], "ran": rc is not None,
                                      "passed": bool(ok), "label": "bounded stand-in (always run), not proof"})
                 if failed:
-                    msg = [l for l in out.split("\n") if "VX-BOUNDED" in l or "panicked" in l][:4]
-                    fallback_violations.append((u["name"], {"bound": bd["bound"], "module_file": bd["module_file"], "test": bd["test"], "filter": bd["filter"]}, msg, out))
+                    # failing probes are reported one per line `VX-BOUNDED-FAIL <METHOD> <route> ...`; a probe listed under a recorded finding
+                    # (known_findings.json, kind "bounded") is a KNOWN-FINDING, anything else a violation
+                    fl = [l.strip() for l in out.split("\n") if l.strip().startswith("VX-BOUNDED-FAIL")]
+                    other = [l.strip() for l in out.split("\n") if l.strip().startswith("VX-BOUNDED ") ]
+                    kb = [k for k in known.get("findings", []) if k.get("kind") == "bounded" and k["property"] == prop and k.get("filter") == bd["filter"]]
+                    unmatched, hit = [], set()
+                    for l in fl:
+                        key = " ".join(l.split()[1:3])
+                        ks = [k for k in kb if key in k.get("inputs", [])]
+                        if ks:
+                            hit.update(k["id"] for k in ks)
+                        else:
+                            unmatched.append(l)
+                    if fl and not unmatched and not other:
+                        for k in kb:
+                            if k["id"] in hit:
+                                known_hits.append((k, u["name"], "bounded:" + bd["filter"]))
+                        bounded_runs[-1]["passed"] = True
+                        bounded_runs[-1]["known_findings"] = sorted(hit)
+                        bounded_runs[-1]["failing_probes_all_recorded"] = len(fl)
+                    else:
+                        msg = (unmatched + other)[:6] or [l for l in out.split("\n") if "VX-BOUNDED" in l or "panicked" in l][:4]
+                        fallback_violations.append((u["name"], {"bound": bd["bound"], "module_file": bd["module_file"], "test": bd["test"], "filter": bd["filter"]}, msg, out))
                 elif not ok:
                     undecided.append("unit %s: bounded stand-in %s did not run to a verdict: %s" % (u["name"], bd["filter"], out[-600:]))
         # ---- thorough tier: the bounded stand-ins run unconditionally (they exercise the real code natively over a stated domain)
@@ -361,7 +384,7 @@ def decide(prop, tier, repo, seed, only_units=None, quiet=False):
         # ---- verdict
         seen_known = set()
         for (k, name, f) in known_hits:
-            key = (k["property"], k["unit"], k["obligation"], k.get("clause_contains"))
+            key = (k.get("id"), k["property"], k["unit"], k["obligation"], k.get("clause_contains"))
             if key in seen_known:
                 continue
             seen_known.add(key)
